@@ -366,7 +366,10 @@ fn run_once(sched: &Arc<Sched>, sc: &Value, sc_ix: usize, run_ix: usize, micro: 
                 "map" => {
                     // event in the model's shape: insert(v = order, r = previous entry),
                     // remove/get(v = id, r = entry or none); the map content after a mutation is "m"
-                    let now = map_json(&level);
+                    // get_mut hands out a guard that holds the shard's write lock while this observer runs: walking
+                    // the map now would block for ever; the last walk stands (and the trace specification treats an
+                    // execution with in-place writes as one whose map content the observer cannot vouch for)
+                    let now = if ev.op == "get_mut" { prev_map.lock().unwrap().clone() } else { map_json(&level) };
                     let key = key_num(&id_names, &ev.arg);
                     let find = |m: &Value| -> Value { m.as_array().and_then(|a| a.iter().find(|o| o["id"].as_i64() == Some(key)).cloned()).unwrap_or_else(no_order) };
                     let mut pm = prev_map.lock().unwrap();
